@@ -132,6 +132,16 @@ pub fn guarded<R>(f: impl FnOnce() -> R) -> (Option<R>, CallReport) {
     }
 }
 
+/// Harness-side work inside a guarded call (value -> abstract item conversion, Debug formatting
+/// into a String): still under catch_unwind, but not charged to the crate's heap meter, which
+/// is about what the parse call itself allocates.
+pub fn unmetered<R>(f: impl FnOnce() -> R) -> R {
+    let was = ARMED.with(|a| a.replace(false));
+    let r = f();
+    ARMED.with(|a| a.set(was));
+    r
+}
+
 /// Catch a panic of the harness itself (used by the minimiser and replay: a scenario the
 /// harness cannot execute is "not a reproduction", never a violation).
 pub fn harness_catch<R>(f: impl FnOnce() -> R) -> Result<R, String> {
